@@ -30,7 +30,12 @@ Qed.
 Lemma dist2_bridge c p q : dist2 c p q = gen_distance_squared (c_w c) (c_h c) (c_torus c) p q.
 Proof.
   unfold dist2, axis_dist, gen_distance_squared. destruct p as [px py], q as [qx qy]. cbn [fst snd].
-  destruct (c_torus c); cbv zeta; try reflexivity; try lia.
+  destruct (c_torus c); cbv zeta; try reflexivity; try lia;
+    (* a sum of two squares on both sides: compare the per-axis distances linearly *)
+    match goal with
+    | |- ?a * ?a + ?b * ?b = ?a' * ?a' + ?b' * ?b' =>
+      replace a' with a by lia; replace b' with b by lia; reflexivity
+    end.
 Qed.
 
 Lemma is_cell_empty_bridge s p : is_cell_empty s p = gen_is_cell_empty (grid s) p.
@@ -246,52 +251,53 @@ Section Exec.
     end.
 End Exec.
 
-Ltac fin_state Eb := unfold set_pos, set_mask, set_empties, set_grid; cbn; rewrite ?Eb; reflexivity.
-
 Definition no_rm (s : state) : state * res := (s, Err E_INTERNAL).
 Definition no_pl (s : state) (_ : coord) : state * res := (s, Err E_INTERNAL).
+
+Lemma upd_a_self {A} (f : agent -> A) a v : upd_a f a v a = v.
+Proof. unfold upd_a. rewrite Z.eqb_refl. reflexivity. Qed.
+
+Lemma upd_c_self {A} (f : coord -> A) q v : upd_c f q v q = v.
+Proof. unfold upd_c. rewrite coord_eqb_refl. reflexivity. Qed.
+
+(* Evaluate the interpreter symbolically.  The data the code branches on (cell content, built flag, agent.pos,
+   membership) is case-split FIRST and remembered as equations; `norm` then alternates computation with rewriting by
+   those equations and by the two "read what was just written" facts, whatever order the statements come in. *)
+Ltac rw_hyps := repeat match goal with H : ?l = _ |- context [?l] => rewrite H end.
+Ltac norm := repeat (progress (cbn; rewrite ?upd_a_self, ?upd_c_self; rw_hyps)).
+Ltac fin_state := try reflexivity; unfold set_pos, set_mask, set_empties, set_grid; norm; reflexivity.
+Ltac body_bridge :=
+  unfold run_body, mask_write, gen_is_cell_empty, gen_is_default, is_cell_empty, is_nil; norm; fin_state.
 
 (* ------------------------------------------------------------------ the four place / remove bodies *)
 Lemma single_place_bridge c s a p :
   place_single s a p = run_body c a no_rm no_pl no_pl gen_body_single_place s (Some p).
 Proof.
-  destruct p as [x y]. unfold place_single, is_cell_empty, run_body, gen_body_single_place.
-  cbn. unfold gen_is_default, mask_write.
-  destruct (grid s (x, y)); destruct (built s) eqn:Eb; cbn; rewrite ?Eb; cbn; try reflexivity; fin_state Eb.
+  destruct p as [x y]. unfold place_single, gen_body_single_place.
+  destruct (grid s (x, y)) eqn:Hg; destruct (built s) eqn:Eb; body_bridge.
 Qed.
 
 Lemma single_remove_bridge c s a :
   remove_single s a = run_body c a no_rm no_pl no_pl gen_body_single_remove s None.
 Proof.
-  unfold remove_single, run_body, gen_body_single_remove. cbn. unfold mask_write.
-  destruct (pos s a) as [[x y]|] eqn:Hp; cbn; [|reflexivity].
-  destruct (built s) eqn:Eb; cbn; rewrite ?Eb, ?Hp; cbn; rewrite ?Eb, ?Hp; cbn; try reflexivity; fin_state Eb.
+  unfold remove_single, gen_body_single_remove.
+  destruct (pos s a) as [[x y]|] eqn:Hp; destruct (built s) eqn:Eb; body_bridge.
 Qed.
-
-Lemma upd_a_self {A} (f : agent -> A) a v : upd_a f a v a = v.
-Proof. unfold upd_a. rewrite Z.eqb_refl. reflexivity. Qed.
 
 Lemma multi_place_bridge c s a p :
   place_multi s a p = run_body c a no_rm no_pl no_pl gen_body_multi_place s (Some p).
 Proof.
-  destruct p as [x y]. unfold place_multi, run_body, gen_body_multi_place. cbn. unfold mask_write.
-  destruct (is_none (pos s a) || negb (zmemb a (grid s (x, y)))); cbn; [|reflexivity].
-  destruct (built s) eqn:Eb; cbn; rewrite ?Eb, ?upd_a_self; cbn; rewrite ?Eb, ?upd_a_self; cbn;
-    try reflexivity; fin_state Eb.
+  destruct p as [x y]. unfold place_multi, gen_body_multi_place.
+  destruct (pos s a) as [q|] eqn:Hp; destruct (zmemb a (grid s (x, y))) eqn:Hm; destruct (built s) eqn:Eb; body_bridge.
 Qed.
-
-Lemma upd_c_self {A} (f : coord -> A) q v : upd_c f q v q = v.
-Proof. unfold upd_c. rewrite coord_eqb_refl. reflexivity. Qed.
 
 Lemma multi_remove_bridge c s a :
   remove_multi s a = run_body c a no_rm no_pl no_pl gen_body_multi_remove s None.
 Proof.
-  unfold remove_multi, run_body, gen_body_multi_remove. cbn. unfold mask_write.
-  destruct (pos s a) as [[x y]|] eqn:Hp; cbn; [|reflexivity].
-  destruct (zmemb a (grid s (x, y))); cbn; [|reflexivity].
-  rewrite ?upd_c_self. unfold gen_is_default, is_nil.
-  destruct (remove_first a (grid s (x, y))); destruct (built s) eqn:Eb; cbn; rewrite ?Eb, ?Hp, ?upd_c_self; cbn;
-    rewrite ?Eb, ?Hp, ?upd_c_self; cbn; try reflexivity; fin_state Eb.
+  unfold remove_multi, gen_body_multi_remove.
+  destruct (pos s a) as [[x y]|] eqn:Hp; [|body_bridge].
+  destruct (zmemb a (grid s (x, y))) eqn:Hm; [|body_bridge].
+  destruct (remove_first a (grid s (x, y))) eqn:Hr; destruct (built s) eqn:Eb; body_bridge.
 Qed.
 
 (* the class dispatch of the model, over the translated bodies *)
@@ -335,16 +341,20 @@ Proof.
   - destruct (pos s a); split; discriminate.
 Qed.
 
+Arguments gen_torus_adj : simpl never.
+Arguments gen_out_of_bounds : simpl never.
+Arguments gen_distance_squared : simpl never.
+
 Lemma grid_move_bridge c s a p : grid_move_agent c s a p = src_grid_move c s a p.
 Proof.
   unfold grid_move_agent, src_grid_move, run_body, gen_body_grid_move. cbn.
-  rewrite <- torus_adj_bridge. destruct (torus_adj c p) as [p'|]; cbn; [|reflexivity].
-  rewrite <- remove_bridge. unfold of_res, bind.
-  destruct (remove c s a) as [s1 r1] eqn:Er; cbn.
-  destruct r1; cbn; try reflexivity;
+  rewrite <- ?torus_adj_bridge. destruct (torus_adj c p) as [p'|] eqn:Ht; norm; try reflexivity.
+  rewrite <- ?remove_bridge. unfold of_res, bind.
+  destruct (remove c s a) as [s1 r1] eqn:Er; norm.
+  destruct r1; norm; try reflexivity;
     try (exfalso; destruct (remove_not_odd c s a s1) as [H1 H2]; first [apply H1; exact Er | apply H2; exact Er]).
-  rewrite <- place_bridge. destruct (place c s1 a p') as [s2 r2] eqn:Ep; cbn.
-  destruct r2; cbn; try reflexivity;
+  rewrite <- ?place_bridge. destruct (place c s1 a p') as [s2 r2] eqn:Ep; norm.
+  destruct r2; norm; try reflexivity;
     try (exfalso; destruct (place_not_odd c s1 a p' s2) as [H1 H2]; first [apply H1; exact Ep | apply H2; exact Ep]).
   apply place_ok_nil in Ep. subst. reflexivity.
 Qed.
@@ -374,16 +384,12 @@ Lemma single_move_bridge c s a p :
   c_multi c = false -> move_agent c s a p = src_single_move c s a p.
 Proof.
   intros Hs. unfold move_agent, src_single_move, run_body, gen_body_single_move. rewrite Hs. cbn.
-  rewrite <- torus_adj_bridge. destruct (torus_adj c p) as [[x y]|]; cbn; [|reflexivity].
+  rewrite <- ?torus_adj_bridge. destruct (torus_adj c p) as [[x y]|] eqn:Ht; norm; try reflexivity.
   unfold blocked, gen_is_default.
-  destruct (grid s (x, y)) as [|b t]; cbn.
-  - rewrite <- grid_move_bridge. unfold of_res.
-    destruct (grid_move_agent c s a (x, y)) as [s2 r2] eqn:E. cbn.
-    destruct (grid_move_res c s a (x, y) s2 r2 E) as [->|[k ->]]; reflexivity.
-  - destruct (b =? a); cbn; [|reflexivity].
-    rewrite <- grid_move_bridge. unfold of_res.
-    destruct (grid_move_agent c s a (x, y)) as [s2 r2] eqn:E. cbn.
-    destruct (grid_move_res c s a (x, y) s2 r2 E) as [->|[k ->]]; reflexivity.
+  destruct (grid s (x, y)) as [|b t] eqn:Hg; [|destruct (b =? a) eqn:Eba]; norm; try reflexivity;
+    rewrite <- ?grid_move_bridge; unfold of_res;
+    destruct (grid_move_agent c s a (x, y)) as [s2 r2] eqn:E;
+    destruct (grid_move_res c s a (x, y) s2 r2 E) as [->|[k ->]]; norm; reflexivity.
 Qed.
 
 Lemma move_bridge c s a p : move_agent c s a p = src_move c s a p.
